@@ -38,7 +38,7 @@ ASSUMPTIONS = [
 REQUIRED_COUNTERS = {"faults_injected": 250, "faults_model": 80, "faults_loss": 40, "faults_sampler": 40, "faults_rl": 60, "faults_njobs2": 20,
                      "faults_with_folder": 60, "reuse_ok": 200, "child_process_exits": 2}
 SHARDS = {"quick": 16, "thorough": 16}
-SHARD_WATCHDOG = {"quick": 900, "thorough": 7200}
+SHARD_WATCHDOG = {"quick": 1500, "thorough": 10800}
 
 
 def gen_cases(tier, seed):
@@ -152,7 +152,7 @@ def run_enum(desc, ctx, out):
         calls["sample_batch"].append(int(twin.current_batch_index))
 
     try:
-        with wrap_all(twin, pre_sb), quiet(), G.time_limit(120):
+        with wrap_all(twin, pre_sb), quiet(), G.time_limit(G.LIMIT):
             twin.calibrate(nb)
     except Exception as e:  # noqa: BLE001
         release(twin)
@@ -206,8 +206,13 @@ def run_enum(desc, ctx, out):
 
         raised = None
         mon = CM.RunMonitor(cal, snapshots=False)
+        import contextlib
+
+        from vlib.yieldinj import YieldInjector
+
+        inj = YieldInjector(int(rng.integers(2**31))) if rl else contextlib.nullcontext()
         try:
-            with mon, quiet(), G.time_limit(120):
+            with mon, inj, quiet(), G.time_limit(G.LIMIT):
                 if target == "sampler":
                     with wrap_all(cal, pre_fault):
                         cal.calibrate(nb)
@@ -217,7 +222,7 @@ def run_enum(desc, ctx, out):
             raised = e
         except G.Timeout:
             release(cal)
-            out["inconclusive"] = "faulty run did not return within 120 s"
+            out["inconclusive"] = "faulty run did not return within the time limit"
             return
         except Exception as e:  # noqa: BLE001
             raised = e
@@ -225,6 +230,7 @@ def run_enum(desc, ctx, out):
         cnt(f"faults_{target}")
         if rl:
             cnt("faults_rl")
+            cnt("rl_line_events_with_yield_injection", getattr(inj, "events", 0))
         if n_jobs == 2:
             cnt("faults_njobs2")
         if use_folder:
@@ -258,7 +264,7 @@ def run_enum(desc, ctx, out):
             elif target == "loss":
                 cal.loss_function.k = None
             try:
-                with CM.RunMonitor(cal, snapshots=False) as mon2, quiet(), G.time_limit(120):
+                with CM.RunMonitor(cal, snapshots=False) as mon2, quiet(), G.time_limit(G.LIMIT):
                     cal.calibrate(1)
                 cnt("reuse_ok")
                 nxt = mon2.batches()
@@ -275,14 +281,14 @@ def run_enum(desc, ctx, out):
                     bad.append(f"after the follow-up calibrate(1) thread(s) still running inside black_it code: {j2}")
                     release(cal)
             except G.Timeout:
-                bad.append("a subsequent calibrate(1) on the same object did not return within 120 s")
+                bad.append("a subsequent calibrate(1) on the same object did not return within the time limit")
                 release(cal)
             except Exception as e:  # noqa: BLE001
                 bad.append(f"a subsequent calibrate(1) on the same object raised {type(e).__name__}: {str(e)[:140]}")
                 release(cal)
         for x in bad[:3]:
             out["violations"].append({"msg": x + (" [RL scheduler]" if rl else ""), "witness": fw})
-        if len(out["violations"]) >= 4:
+        if len(out["violations"]) >= 4 or any("time limit" in x for x in bad):
             break
     if ks == list(range(total)):
         cnt("cases_all_indices")
